@@ -695,6 +695,19 @@ def w7(ctx, F):
                 unw.append(a["name"])
     ctx.check("C17.W7", "import-result-not-unwrapped", not unw, fn=fn["path"], file=fn["file"],
               what="the result of Game::new is unwrapped in the position command (malformed FEN aborts the engine)", found=unw)
+    # the text the importer sees is the text of the command: nothing but separators is added to the words that were sent (padding a
+    # short record with invented fields makes the importer judge a different string than the user's)
+    from .common import dependence_nodes
+    added = []
+    for c, anc in hir.calls(body, "Game::new"):
+        if not c.get("args"):
+            continue
+        for n in dependence_nodes(c["args"][0], fn["hir"]):
+            if n.get("k") == "Lit" and isinstance(n.get("v"), str) and n.get("lk") in ("str", "Str", None) and n["v"].strip() and n["v"] != "moves":
+                added.append(n["v"])
+    ctx.check("C17.W7", "importer-is-given-the-words-of-the-command", not added, fn=fn["path"], file=fn["file"],
+              what="the position command adds text of its own to the FEN before importing it: whether a record is accepted no longer "
+                   "depends on the record alone", expected="only separators between the command's words", found=sorted(set(added)))
     # uci_talk prints error and continues
     ut = F.fn("uci::uci_talk")
     ws, usym = fmt_writes(ut, F)
